@@ -340,6 +340,46 @@ def run(ck):
                               'got': got if isinstance(got, str) else got[:50]})
                 break
     ck.count('matcher_history_sessions', nh)
+    # one matcher, the SAME reference Table object whose coordinate columns are re-assigned between the calls (rows
+    # permuted in place, as after re-projecting a catalog into another plane): the identity of the table says nothing
+    # about its content
+    nh3 = 0
+    for t in range(0, 5 * ck.n(16, 120), 5):
+        pr = make_problem(hist_rng, t)
+        if pr is None or not pr['use2d'] or pr['regime'] != 'A' or len(pr['ref']) < 4:
+            continue
+        if max(abs(pr['u'][0]), abs(pr['u'][1])) < 1.0:
+            continue
+        nh3 += 1
+        pos_ref = {s_: i for i, s_ in enumerate(pr['ref_ids'])}
+        truth0 = sorted((pos_ref[s_], k) for k, s_ in enumerate(pr['im_ids']) if s_ in pos_ref)
+        rt = Table([[v[0] for v in pr['ref']], [v[1] for v in pr['ref']]], names=('TPx', 'TPy'))
+        im = Table([[v[0] for v in pr['im']], [v[1] for v in pr['im']]], names=('TPx', 'TPy'))
+        m = XYXYMatch(searchrad=pr['sr'], separation=pr['sep'], tolerance=pr['tol'], use2dhist=True)
+        perm = list(range(len(pr['ref'])))
+        seq = []
+        for step in range(3):
+            if step:
+                hist_rng.shuffle(perm)
+                rt['TPx'][:] = [pr['ref'][i][0] for i in perm]       # same Table object, new row order
+                rt['TPy'][:] = [pr['ref'][i][1] for i in perm]
+            inv_perm = {old: new for new, old in enumerate(perm)}
+            truth = sorted((inv_perm[r], k) for r, k in truth0)
+            ck.search_evaluations += 1
+            try:
+                ri, ii = m(rt, im, tp_pscale=pr['p'], tp_units='u')
+                got = sorted(zip([int(v) for v in ri], [int(v) for v in ii]))
+            except Exception as e:   # noqa: BLE001
+                got = 'raised %s: %s' % (type(e).__name__, e)
+            seq.append(got == truth)
+            if got != truth:
+                ck.violation({'kind': 'matcher reused on one reference Table object whose rows were re-assigned in place does '
+                                      'not return the true pairs', 'per_call_ok': seq, 'row_order_of_reference_now': perm,
+                              'pscale': pr['p'], 'searchrad': pr['sr'], 'tolerance': pr['tol'], 'separation': pr['sep'],
+                              'ref (original order)': pr['ref'], 'im': pr['im'], 'expected_pairs': truth,
+                              'got': got if isinstance(got, str) else got[:50]})
+                break
+    ck.count('matcher_history_sessions_same_table_object', nh3)
     # the same with use2dhist=False and a user-supplied offset estimate: catalogs whose true offsets are each within
     # the tolerance of the estimate but farther than the tolerance from each other
     nh2 = 0
